@@ -5,7 +5,7 @@ import BoxoModel.C13.Model
         defines node <idx> (= number of nodes defined so far); a CID token is `<node><view>` with view
         a = CIDv0, b = CIDv1 native codec, r = CIDv1 raw codec over the same multihash; CID number = 3*node+view
   tracker <none|map|cidset>
-  walk <dag|entity> <root> <stopAt> <nil|set> <nonlocal tokens,|-> <locality-error tokens,|->
+  walk <dag|entity> <root> <stopAt | c<cancelAt>> <nil|set> <nonlocal tokens,|-> <locality-error tokens,|->
   has <token>
   bnew <cap> <fpRate> <seed> | bvisit <key> <ans 0|1> | bhas <key> <ans 0|1> | brange <first> <count> <negatives,|->
 -/
@@ -90,19 +90,23 @@ def step (d : DS) (line : String) : DS × String :=
   | ["tracker", k] =>
     if k == "none" || k == "map" || k == "cidset" then ({ d with trk := k, tr := {} }, "ok") else (d, "bad-op")
   | ["walk", mode, root, stopAt, _, nl, le] =>
+    -- stopAt = k: emit returns false on its k-th call; stopAt = ck: the context is cancelled during the k-th call
+    let cancel := stopAt.startsWith "c"
+    let stopAt := if cancel then (stopAt.drop 1).toString else stopAt
     match parseTok root, stopAt.toNat?, parseToks nl, parseToks le with
     | some root, some stopAt, some nl, some le =>
+      let errOf (s : St) : String := if cancel && stopAt != 0 && s.out.length == stopAt && cancelledErr s then "canceled" else "nil"
       let g0 := mkGraph d (d.trk == "cidset") (nl ++ le)
       let g := if mode == "entity" then cut g0 (entOf d) else g0
       if d.trk == "none" then
         match walkNoTracker g stopAt 300000 root with
-        | some s => (d, s!"out={showOut s.out} err=nil")
+        | some s => (d, s!"out={showOut s.out} err={errOf s}")
         | none => (d, "fuel-out")
       else
         match walk g stopAt d.tr root with
         | some s =>
           let dd := if d.trk == "map" then s!" dedup={s.tr.dedup}" else ""
-          ({ d with tr := s.tr }, s!"out={showOut s.out} err=nil{dd}")
+          ({ d with tr := s.tr }, s!"out={showOut s.out} err={errOf s}{dd}")
         | none => (d, "fuel-out")
     | _, _, _, _ => (d, "bad-op")
   | ["has", tok] =>
